@@ -398,7 +398,7 @@ def retie_line(item):
 @prop('C07')
 def C07(run):
     spec = dict(rules=ALL, keys=['EXC', 'C07b', 'C07l', 'C07t', 'C07s'], proj=proj_C07, quick=5000, thorough=150000,
-                families=['plain', 'symmetric', 'symmetric', 'sure_losers', 'on_quota', 'chains', 'few_supported', 'crossover'])
+                families=['plain', 'symmetric', 'symmetric', 'sure_losers', 'on_quota', 'chains', 'few_supported', 'crossover', 'threeway'])
     count_property(run, spec)
     # when no tie is logged the record does not depend on the tie-break order (implementation vs implementation)
     rng = rng_for(run, 'retie')
